@@ -198,6 +198,10 @@ class SigmaFilter(SigmaRuleBase):
         if isinstance(rule, SigmaCorrelationRule):
             return False
 
+        # A filter that could not be loaded completely (error collecting mode) is never applied
+        if self.errors:
+            return False
+
         # Check if logsource matches
         if rule.logsource not in self.logsource:
             return False
